@@ -151,6 +151,14 @@ func cmdCheck(args []string) int {
 			vcs = append(vcs, vc)
 		}
 	}
+	// lemmas
+	lvc := lemmaVC(P, S, pid)
+	if lvc != nil {
+		if len(lvc.errs) > 0 {
+			fails = append(fails, failure{Obligation: "lemmas/resolve", Reason: strings.Join(lvc.errs, "; "), Status: "error"})
+		}
+		vcs = append(vcs, lvc)
+	}
 	// global invariants: proved of the package init functions of every package that owns a function under check
 	pkgsSeen := map[string]bool{}
 	for _, vc := range vcs {
@@ -166,14 +174,6 @@ func cmdCheck(args []string) int {
 	}
 	for _, w := range globalWriters(P, S, pkgsSeen) {
 		fails = append(fails, failure{Obligation: "global-inv/writer:" + w, Reason: "a function other than the package initialiser writes a package-level table that a global invariant describes: " + w, Status: "scan"})
-	}
-	// lemmas
-	lvc := lemmaVC(P, S, pid)
-	if lvc != nil {
-		if len(lvc.errs) > 0 {
-			fails = append(fails, failure{Obligation: "lemmas/resolve", Reason: strings.Join(lvc.errs, "; "), Status: "error"})
-		}
-		vcs = append(vcs, lvc)
 	}
 	tmp, _ := os.MkdirTemp("", "govc-")
 	defer os.RemoveAll(tmp)
@@ -386,6 +386,27 @@ func lemmaVC(P *Program, S *Specs, pid string) *FuncVC {
 	vc.entry = st
 	vc.ensureComp("alloc", ArraySort(SRef, SBool))
 	vc.assumeAxioms(&Env{vc: vc, st: st, old: st, vars: map[string]SVal{}})
+	// a lemma may rely on the global invariants declared in its own package (proved of that package's init)
+	seenPkg := map[string]bool{}
+	for _, l := range ls {
+		if l.Clause.Ctx == nil || l.Clause.Ctx.Pkg == nil || seenPkg[l.Clause.Ctx.Pkg.Path()] {
+			continue
+		}
+		seenPkg[l.Clause.Ctx.Pkg.Path()] = true
+		for _, gi := range S.GlobalInv {
+			if gi.Ctx == nil || gi.Ctx.Pkg == nil || gi.Ctx.Pkg.Path() != l.Clause.Ctx.Pkg.Path() {
+				continue
+			}
+			env := &Env{vc: vc, st: st, old: st, vars: map[string]SVal{}, ctx: gi.Ctx}
+			if t, err := env.Bool(gi.Expr); err == nil {
+				vc.assume(True, t)
+				if vc.usedInvPkgs == nil {
+					vc.usedInvPkgs = map[string]bool{}
+				}
+				vc.usedInvPkgs[gi.Ctx.Pkg.Path()] = true
+			}
+		}
+	}
 	for _, l := range ls {
 		env := &Env{vc: vc, st: st, old: st, vars: map[string]SVal{}, ctx: l.Clause.Ctx}
 		t, err := env.Bool(l.Clause.Expr)
